@@ -21,13 +21,10 @@ Proof.
   destruct (it_loaded (itm s j)) eqn:Hd; [|discriminate].
   destruct (it_abandoned (itm s j)) eqn:Hab.
   - start Hs. solve_inv HI.
-    all: idtac "WAKE-ABANDONED REMAINING". Show.
   - destruct (it_err (itm s j)) as [e|] eqn:Herr.
     + start Hs. solve_inv HI.
-      all: idtac "WAKE-ERR REMAINING". Show.
     + destruct (it_resp (itm s j)) as [d|] eqn:Hresp.
       * start Hs. solve_inv HI.
-        all: idtac "WAKE-RESP REMAINING". Show.
       * exfalso. pose proof (c_pubd _ _ HI j Hj Hresp Herr Hab) as U.
         pose proof (c_lead_open _ _ HI j Hj) as O.
         destruct (a_pc (act s j)); cbn in *; try discriminate; specialize (O eq_refl); congruence.
@@ -40,7 +37,6 @@ Proof.
   destruct (a_pc (act s i)) eqn:Hpc; try discriminate.
   destruct (a_cancel (act s i)) eqn:Hc; [|discriminate]. start Hs.
   solve_inv HI.
-  all: idtac "WAKE-CTX REMAINING". Show.
 Qed.
 
 Lemma inv_loaded_ok s i :
@@ -50,9 +46,7 @@ Proof.
   intros HI He Hpc. unfold loaded.
   destruct (a_ref (act s i)) as [j|] eqn:Hr.
   - own HI j i. solve_inv HI.
-    all: idtac "LOADOK1 REMAINING". Show.
   - solve_inv HI.
-    all: idtac "LOADOK2 REMAINING". Show.
 Qed.
 
 Lemma inv_loaded_err s i w e :
@@ -64,14 +58,10 @@ Proof.
   destruct (a_ref (act s i)) as [j|] eqn:Hr.
   - own HI j i. destruct Hw as [[-> ->]|[-> Hc]].
     + solve_inv HI.
-      all: idtac "LOADERR1 REMAINING". Show.
     + solve_inv HI.
-      all: idtac "LOADERR2 REMAINING". Show.
   - destruct Hw as [[-> ->]|[-> Hc]].
     + solve_inv HI.
-      all: idtac "LOADERR3 REMAINING". Show.
     + solve_inv HI.
-      all: idtac "LOADERR4 REMAINING". Show.
 Qed.
 
 Lemma inv_ans s i w s' :
@@ -89,6 +79,5 @@ Lemma inv_cancel s i :
   Inv s -> exists_b i = true -> Inv (with_act s i (set_cancel (act s i))).
 Proof.
   intros HI He. solve_inv HI.
-  all: idtac "CANCEL REMAINING". Show.
 Qed.
 End S.
